@@ -48,7 +48,7 @@ func (c *Ctx) strLit(s string) T {
 			fs = append(fs, eq(app("sbyte", name, num(int64(i))), num(int64(s[i]))))
 		}
 	}
-	c.sc.assume(and(fs...))
+	c.sc.assumeG(and(fs...))
 	return name
 }
 
@@ -206,14 +206,14 @@ func (c *Ctx) decompose(bits uint, x T) {
 				fs = append(fs, not(b))
 			}
 		}
-		c.sc.assume(and(fs...))
+		c.sc.assumeG(and(fs...))
 		return
 	}
 	var terms []T
 	for i := uint(0); i < bits; i++ {
 		terms = append(terms, ite(app("bit", x, num(int64(i))), numBig(pow2(i)), "0"))
 	}
-	c.sc.assume(imp(and(le("0", x), lt(x, numBig(pow2(bits)))), eq(x, app("+", terms...))))
+	c.sc.assumeG(imp(and(le("0", x), lt(x, numBig(pow2(bits)))), eq(x, app("+", terms...))))
 }
 
 func (c *Ctx) bitOf(bits uint, x, i T) T {
@@ -318,7 +318,7 @@ func (c *Ctx) constArr(sort string, v T) T {
 	}
 	n := c.sc.fresh("constarr", sort)
 	ks, _ := innerSort(sort)
-	c.sc.assume(fmt.Sprintf("(forall ((i %s)) (! (= (select %s i) %s) :pattern ((select %s i))))", ks, n, v, n))
+	c.sc.assumeG(fmt.Sprintf("(forall ((i %s)) (! (= (select %s i) %s) :pattern ((select %s i))))", ks, n, v, n))
 	c.witnesses[key] = n
 	return n
 }
